@@ -16,12 +16,65 @@ def trees(ctx, G, n):
     out = []
     rng = G.rng
     for _ in range(n):
+        if rng.random() < 0.2:
+            out.append(G.special(rng.choice([1, 2, 3])))
+            continue
         r, c = G.shape()
         out.append(G.op(r, c, rng.choice([0, 1, 1, 2, 2, 3, 3] + ([4] if ctx.thorough else []))))
     return out
 
 
+def kernel_stream(ctx):
+    """Kernel operator (blocked on-the-fly product): real vs Lean model vs K @ V, exact integers"""
+    import numpy as np
+    import oracle
+    import build
+    import shim  # noqa: F401
+    from cola.ops import Kernel
+    rng = random.Random(ctx.seed * 13 + 1)
+    cases, reals = [], []
+    N = 60 if not ctx.thorough else 600
+    for t in range(N):
+        n, m, d = rng.randint(1, 7), rng.randint(1, 7), rng.randint(1, 2)
+        bs1, bs2 = rng.randint(1, 9), rng.randint(1, 9)
+        cplx = rng.random() < 0.3
+        dt = rng.choice([np.complex64, np.complex128]) if cplx else rng.choice([np.float32, np.float64])
+        x1 = np.array([[rng.randint(-2, 2) for _ in range(d)] for _ in range(n)], dtype=dt)
+        x2 = np.array([[rng.randint(-2, 2) for _ in range(d)] for _ in range(m)], dtype=dt)
+        if cplx:
+            x1 = x1 * 1j
+        b = rng.randint(1, 3)
+        vdt = rng.choice([np.float32, np.float64, np.complex64])
+        V = np.array([[rng.randint(-2, 2) for _ in range(b)] for _ in range(m)], dtype=vdt)
+        Kmat = x1 @ x2.T
+        cases.append({"id": t, "call": "kernel", "K": build.exact_mat(Kmat), "x": build.exact_mat(V), "n": n, "m": m, "bs1": bs1, "bs2": bs2})
+        try:
+            Kop = Kernel(x1, x2, lambda a, c: a @ c.T, bs1, bs2)
+            out = Kop @ V
+            reals.append({"v": build.exact_mat(out), "shape": list(out.shape), "dt": str(out.dtype), "want_dt": str(np.promote_types(dt, vdt))})
+        except Exception as ex:  # noqa: BLE001
+            reals.append({"err": f"{type(ex).__name__}: {str(ex)[:100]}"})
+    ans = oracle.run_driver(cases)
+    bad = 0
+    for c, r in zip(cases, reals):
+        a = ans.get(c["id"], {})
+        ok_model = a.get("code") == a.get("spec")
+        ok_real = r.get("v") == a.get("spec") and r.get("dt") == r.get("want_dt")
+        if ok_model and ok_real:
+            continue
+        bad += 1
+        if bad <= 2:
+            if not ok_real and ok_model:
+                common.violation(ctx, {"stream": "Kernel operator", "case": c, "real": r, "expected": a.get("spec"),
+                                       "why": "Kernel @ V differs from fn(x1, x2) @ V (value, shape or promoted dtype)"})
+            else:
+                common.violation(ctx, {"broken": "Kernel block-loop model differs from its specification", "case": c, "answer": a}, no_input=True)
+    return {"kernel_cases": len(cases), "kernel_disagreements": bad}
+
+
 def run(ctx, calls=CALLS, module=MODULE, corpus=CORPUS, gen_kw=None, extra=None):
+    if extra is None and module == MODULE:
+        extra = kernel_stream
     gate = None
     gate_err = None
     try:
